@@ -29,4 +29,7 @@ def boot():
     if root != os.path.realpath(REPO):
         raise RuntimeError(f"pipefunc imported from {root}, expected {REPO}")
     pipefunc._verif_booted = True
+    from . import userstorage
+
+    userstorage.register()
     return pipefunc
